@@ -315,6 +315,16 @@ def run_history(steps, collect=None):
             if not pickles:
                 return None
             res = pickle.loads(pickles[step[1] % len(pickles)])
+        elif kind == "reorder":
+            # the same annotations in another order are another expression: the result must carry them in the order requested
+            src = _pick(pool, step[1], lambda x: len(x.annotations) >= 2)
+            if src is None:
+                return None
+            order = list(src.annotations)
+            order = order[1:] + order[:1] if step[2] else order[::-1]
+            res = src.clear_annotations().annotate(*order)
+            if [repr(anno_key(a)) for a in res.annotations] != [repr(anno_key(a)) for a in order]:
+                fails.append(("merged:annotation-order:" + src.op, {"src": repr(src), "requested": [repr(anno_key(a)) for a in order], "got": [repr(anno_key(a)) for a in res.annotations]}))
         elif kind == "reannotate":
             src = _pick(pool, step[1], lambda x: bool(x.annotations))
             if src is None:
@@ -449,6 +459,8 @@ step_strategy = st.one_of(
     st.tuples(st.just("pickle_cycle"), _idx),
     st.tuples(st.just("unpickle"), _idx),
     st.tuples(st.just("reannotate"), _idx),
+    st.tuples(st.just("reorder"), _idx, st.booleans()),
+    st.tuples(st.just("reorder"), _idx, st.booleans()),
     st.tuples(st.just("rebuild"), _idx),
     st.tuples(st.just("rebuild"), _idx),
 )
